@@ -176,3 +176,52 @@ def check(case) -> Result:
     res.labels = labels
     res.nontrivial = len(feats) >= 2
     return res
+
+
+def supplement(tier, seed, jobs, merged, open_sigs):
+    """Thorough tier: coverage-guided campaign (atheris / libFuzzer driving the same Hypothesis strategy through
+    fuzz_one_input, rtflite instrumented for coverage), 8 independent processes, bounded by run count."""
+    if tier != "thorough":
+        return None
+    import json
+    import os
+    import subprocess
+    import sys
+
+    try:
+        import atheris  # noqa: F401
+    except Exception as e:
+        return {"skipped": f"atheris not importable: {e}"}
+    work = os.environ.get("VERIF_WORK") or os.environ.get("TMPDIR") or "/tmp"
+    n = max(1, min(8, jobs))
+    runs = 12000
+    procs = []
+    for k in range(n):
+        out = os.path.join(work, f"fuzz{k}.jsonl")
+        procs.append((out, subprocess.Popen([sys.executable, "-m", "vf.fuzz_c01", out, str(runs), str(seed * 100 + k + 1)],
+                                            stdout=subprocess.DEVNULL, stderr=subprocess.DEVNULL)))
+    execs = nontriv = 0
+    from ..engine import match_known, Failure
+    for out, p in procs:
+        try:
+            p.wait(timeout=3600)
+        except Exception:
+            p.kill()
+        if os.path.exists(out + ".stats"):
+            with open(out + ".stats") as fh:
+                st_ = json.load(fh)
+            execs += st_["execs"]
+            nontriv += st_["nontrivial"]
+        if os.path.exists(out):
+            with open(out) as fh:
+                for line in fh:
+                    rec = json.loads(line)
+                    clause, _, sig = rec["key"].partition("/")
+                    if match_known(sys.modules[__name__], Failure(clause, sig, rec["detail"]), open_sigs):
+                        continue
+                    b = merged["buckets"].setdefault(rec["key"], {"count": 0, "case": rec["case"], "detail": rec["detail"],
+                                                                  "size": len(json.dumps(rec["case"], default=str))})
+                    b["count"] += 1
+    merged["evaluations"] += execs
+    return {"engine": "atheris 3.1 / libFuzzer, hypothesis fuzz_one_input, instrument_imports(include=['rtflite'])", "processes": n,
+            "runs_per_process": runs, "valid_executions": execs, "nontrivial_executions": nontriv}
